@@ -312,40 +312,29 @@ theorem putChain_wf (epoch : Nat) : ∀ (chain : List Hdr) (c : Cnr) (level : Na
                 · exact hc
                 · exact putSelf_wf c c hc hc _ _ _ _ _
 
-theorem markGarbageIn_wf (c : Cnr) (h : c.WF) (epoch : Nat) (objs : List Nat) (red : Bool) :
-    (c.markGarbageIn epoch objs red).1.WF := by
-  unfold Cnr.markGarbageIn
-  suffices H : ∀ (objs : List Nat) (acc : Cnr × Nat × Int), acc.1.WF →
-      (objs.foldl (fun (acc : Cnr × Nat × Int) id =>
-        let (cur, newG, pay) := acc
-        match cur.garb.find? (·.1 == id) with
-        | some (_, wasRedundant) =>
-          if !red && wasRedundant then ({ cur with garb := insertGarb (id, false) cur.garb }, newG, pay)
-          else (cur, newG, pay)
-        | none =>
-          let (e, r) := cur.get id false true epoch
-          let pay :=
-            if e == .ok then
-              match r with
-              | some rec => if cur.inGarbage id == .available && rec.phy then pay - rec.size else pay
-              | none => pay
-            else pay
-          ({ cur with garb := insertGarb (id, red) cur.garb }, newG + 1, pay)) acc).1.WF by
-    exact H objs (c, 0, 0) h
+theorem markStep_wf (epoch : Nat) (red : Bool) (acc : Cnr × Nat × Int) (id : Nat) (h : acc.1.WF) :
+    (markStep epoch red acc id).1.WF := by
+  obtain ⟨cur, newG, pay⟩ := acc
+  unfold markStep
+  simp only
+  split
+  · split
+    · exact ⟨h.recs, insertGarb_sorted _ _ h.garb⟩
+    · exact h
+  · exact ⟨h.recs, insertGarb_sorted _ _ h.garb⟩
+
+theorem foldl_markStep_wf (epoch : Nat) (red : Bool) : ∀ (objs : List Nat) (acc : Cnr × Nat × Int), acc.1.WF →
+    (objs.foldl (markStep epoch red) acc).1.WF := by
   intro objs
   induction objs with
   | nil => intro acc h; exact h
-  | cons x xs ih =>
-    intro acc hacc
-    simp only [List.foldl_cons]
-    apply ih
-    obtain ⟨cur, newG, pay⟩ := acc
-    simp only
-    split
-    · split
-      · exact ⟨hacc.recs, insertGarb_sorted _ _ hacc.garb⟩
-      · exact hacc
-    · exact ⟨hacc.recs, insertGarb_sorted _ _ hacc.garb⟩
+  | cons x xs ih => intro acc h; exact ih _ (markStep_wf epoch red acc x h)
+
+theorem markGarbageIn_wf (c : Cnr) (h : c.WF) (epoch : Nat) (objs : List Nat) (red : Bool) :
+    (c.markGarbageIn epoch objs red).1.WF := foldl_markStep_wf epoch red objs (c, 0, 0) h
+
+theorem dropId_wf (c : Cnr) (h : c.WF) (id : Nat) : (c.dropId id).WF :=
+  ⟨filter_recs_sorted _ _ h.recs, filter_garb_sorted _ _ h.garb⟩
 
 theorem deleteMetadata_wf : ∀ (fuel : Nat) (c : Cnr) (id : Nat) (isParent : Bool), c.WF →
     (c.deleteMetadata fuel id isParent).1.WF := by
@@ -362,11 +351,9 @@ theorem deleteMetadata_wf : ∀ (fuel : Nat) (c : Cnr) (id : Nat) (isParent : Bo
     · split
       · exact h
       · simp only
-        have h1 : ({ c with recs := c.recs.filter (·.id != id), garb := c.garb.filter (·.1 != id) } : Cnr).WF :=
-          ⟨filter_recs_sorted _ _ h.recs, filter_garb_sorted _ _ h.garb⟩
         split
-        · exact ih _ _ _ h1
-        · exact h1
+        · exact ih _ _ _ (dropId_wf c h id)
+        · exact dropId_wf c h id
 
 theorem dbPut_wf (db : DB) (hdb : DBWF db) (epoch cn : Nat) (chain : List Hdr) : DBWF (dbPut db epoch cn chain).1 := by
   unfold dbPut
@@ -426,13 +413,24 @@ theorem dbDelete_wf (db : DB) (hdb : DBWF db) (cn : Nat) (ids : List Nat) : DBWF
       apply ih
       exact deleteMetadata_wf 4 acc.1 x false hacc
 
+theorem dropTombs_wf (id : Nat) : ∀ (fuel : Nat) (c : Cnr), c.WF → (c.dropTombs id fuel).WF := by
+  intro fuel
+  induction fuel with
+  | zero => intro c h; exact h
+  | succ f ih =>
+    intro c h
+    unfold Cnr.dropTombs
+    split
+    · rename_i tomb _
+      have := deleteMetadata_wf 4 c tomb false h
+      exact ih _ ⟨this.recs, this.garb⟩
+    · exact h
+
 theorem reviveDropTomb_wf (c : Cnr) (hc : c.WF) (id : Nat) (st : Status) : (c.reviveDropTomb id st).1.WF := by
   unfold Cnr.reviveDropTomb
   split
   · split
-    · rename_i tomb _
-      have := deleteMetadata_wf 4 c tomb false hc
-      exact ⟨this.recs, this.garb⟩
+    · exact dropTombs_wf id _ c hc
     · exact hc
   · exact hc
 
